@@ -233,6 +233,9 @@ def dcopy(v):
     return v
 
 
+_CONST_CACHE = {}
+
+
 class Machine(object):
     def __init__(self, facts, strict=True, hooks=None, max_depth=40, uninterpreted=None,
                  opaque_unknown=False):
@@ -473,7 +476,10 @@ class Machine(object):
     def place_set(self, e, val, env):
         k = e["k"]
         if k == "var" or k == "upvar":
-            cur = lookup(env, e["id"], e.get("name"))
+            try:
+                cur = lookup(env, e["id"], e.get("name"))
+            except Unsupported:
+                cur = None   # declared without initialiser
             if isinstance(cur, MutRef) and self.facts.ty(e["ty"]).startswith("&mut") is False:
                 cur.set(val)
             else:
@@ -885,6 +891,16 @@ class Machine(object):
     def e_const(self, e, env):
         from . import builtins
         c = e["callee"]
+        if "value" in e and not self.uninterpreted(c.get("def"), c):
+            from . import constval
+            key = e["value"]
+            if key not in _CONST_CACHE:
+                try:
+                    _CONST_CACHE[key] = constval.parse(key)
+                except constval.ParseError:
+                    _CONST_CACHE[key] = None
+            if _CONST_CACHE[key] is not None:
+                return dcopy(_CONST_CACHE[key])
         for p in (c.get("resolved"), c.get("def")):
             if p and p in self.hooks:
                 return self.hooks[p](self, [], c)
@@ -907,6 +923,18 @@ class Machine(object):
         raise Unsupported("constant %s" % c.get("def"), e.get("sp", ""))
 
     def e_static(self, e, env):
+        v = e.get("value")
+        sty = e.get("static_ty", "")
+        if v and v.startswith("bytes:"):
+            raw = bytes.fromhex(v[6:])
+            if sty == "bitcoin::Opcode" and len(raw) == 1:
+                return Adt("bitcoin::Opcode", "Opcode", {"code": raw[0]})
+            if sty in INT_RANGES:
+                return int.from_bytes(raw, "little", signed=sty.startswith("i"))
+            if sty.startswith("[u8;"):
+                return PyVec(list(raw))
+        if not self.strict:
+            return Term("static", e.get("def"))
         raise Unsupported("static %s" % e.get("def"), e.get("sp", ""))
 
     def e_index(self, e, env):
